@@ -202,7 +202,7 @@ theorem tracks_partial {s s' : State} {op : Op} (hi : Inv13 s) (h : stepRel s op
   | update k c value size ext add rem rw cc dp ds => exact update_inv13_partial h hn hi
   | commit k i size move => exact commit_inv13 h hi
   | respPass k i D m V dp cr => exact respPass_inv13 h hi
-  | close fin k c X per => exact close_inv13 h hi
+  | close fin k c X per rates => exact close_inv13 h hi
   | wpLock k j v => exact wpLock_inv13 h hi
   | rpLock j v => exact inv13_frame (rpLock_frame13 h) hi
   | rpUnlock j v => exact inv13_frame (rpUnlock_frame13 h) hi
@@ -475,21 +475,21 @@ theorem rekill_breaks_offers : stepRel W1 opRekill (after W1 opRekill) ∧ ¬ In
 /-- … after which the owner's cancel (and any finalize) is rejected with the offer underflow: `close_can_release`
 fails without `InvOffers`. -/
 theorem rekill_blocks_close :
-    step (after W1 opRekill) (.close false 0 (.client 3) 0 [(0, 0), (0, 0)]) = .error (.fail "offer-underflow") ∧
-    step { after W1 opRekill with now := init.now + TU + 1 } (.close true 0 (.client 3) 0 [(0, 0), (0, 0)]) = .error (.fail "offer-underflow") := by
-  have h1 : (match step (after W1 opRekill) (.close false 0 (.client 3) 0 [(0, 0), (0, 0)]) with
+    step (after W1 opRekill) (.close false 0 (.client 3) 0 [(0, 0), (0, 0)] [(1, 1, 0), (1, 1, 0)]) = .error (.fail "offer-underflow") ∧
+    step { after W1 opRekill with now := init.now + TU + 1 } (.close true 0 (.client 3) 0 [(0, 0), (0, 0)] [(1, 1, 0), (1, 1, 0)]) = .error (.fail "offer-underflow") := by
+  have h1 : (match step (after W1 opRekill) (.close false 0 (.client 3) 0 [(0, 0), (0, 0)] [(1, 1, 0), (1, 1, 0)]) with
       | .error (.fail r) => r == "offer-underflow" | _ => false) = true := by decide +kernel
-  have h2 : (match step { after W1 opRekill with now := init.now + TU + 1 } (.close true 0 (.client 3) 0 [(0, 0), (0, 0)]) with
+  have h2 : (match step { after W1 opRekill with now := init.now + TU + 1 } (.close true 0 (.client 3) 0 [(0, 0), (0, 0)] [(1, 1, 0), (1, 1, 0)]) with
       | .error (.fail r) => r == "offer-underflow" | _ => false) = true := by decide +kernel
   constructor
   · revert h1
-    cases step (after W1 opRekill) (.close false 0 (.client 3) 0 [(0, 0), (0, 0)]) with
+    cases step (after W1 opRekill) (.close false 0 (.client 3) 0 [(0, 0), (0, 0)] [(1, 1, 0), (1, 1, 0)]) with
     | ok s => intro h; cases h
     | error e => cases e with
       | fail r => intro h; simp only [beq_iff_eq] at h; rw [h]
       | inadm w => intro h; cases h
   · revert h2
-    cases step { after W1 opRekill with now := init.now + TU + 1 } (.close true 0 (.client 3) 0 [(0, 0), (0, 0)]) with
+    cases step { after W1 opRekill with now := init.now + TU + 1 } (.close true 0 (.client 3) 0 [(0, 0), (0, 0)] [(1, 1, 0), (1, 1, 0)]) with
     | ok s => intro h; cases h
     | error e => cases e with
       | fail r => intro h; simp only [beq_iff_eq] at h; rw [h]
